@@ -76,6 +76,9 @@ def run(chk):
     chk.exhaustive = True
     negs(chk, None if thorough else ["D_IrregularOverwrite"])
     recorded(chk, 400 if thorough else 40)
+    if thorough:   # the repository's own tests as a trace source
+        from . import repo
+        repo.validate(chk)
 
 
 def replay(doc):
